@@ -236,3 +236,28 @@ def run(ctx):
     if nrand:
         ctx.sample({k: scen[-1][k] for k in ("name", "cfg", "limits")} | {"events": scen[-1]["events"][:6]})
     ctx.validate("RingbufferTrace", "RingbufferTrace.cfg", scen, label="ringbuffer history")
+
+    # ---- the composition: live writer -> file events -> event filter -> ringbuffer (+ reader), DrfSystem.tla ----------
+    ctx.model_check("MCDrfSystem", "MCDrfSystem.cfg", coverage=False)
+    ctx.model_check("MCDrfSystem", "MCDrfSystem_brokenfilter.cfg", expect_violated=("RbTracksOnlyFinal",), coverage=False, tag="sys_brokenfilter")
+    ctx.model_check("MCDrfSystem", "MCDrfSystem_W1.cfg", expect_violated=("W_NeverExpires",), coverage=False, tag="sys_w1")
+    ctx.model_check("MCDrfSystem", "MCDrfSystem_W2.cfg", expect_violated=("W_ReaderNeverSkips",), coverage=False, tag="sys_w2")
+    from ..drivers import system_drv
+    from .. import stage as stage_mod
+    from ..core import VERIF, quiet_stderr
+    try:
+        shim = stage_mod.build_shim(ctx.work)
+    except stage_mod.BuildError as e:
+        raise Machinery(str(e))
+    env = dict(stage=ctx.stage(), shim=shim, verif=VERIF, root=os.path.join(ctx.work, "fsrun"))
+    sysscen = []
+    with quiet_stderr():
+        for i in range(ctx.pick(8, 150)):
+            sysscen.append(system_drv.system_run(env, digital_rf, ctx.rng, ctx.seed * 389 + i, "sys%d" % i, count=ctx.rng.choice([1, 2, 3]),
+                                                 lose=ctx.rng.choice([0.0, 0.1, 0.3])))
+    ctx.extra["system_runs"] = len(sysscen)
+    ctx.extra["system_events"] = sum(len(s["events"]) for s in sysscen)
+    ctx.extra["system_ringbuffer_deletions"] = sum(len(e.get("del", [])) for s in sysscen for e in s["events"] if e["ev"] == "h")
+    if sysscen:
+        ctx.sample({"name": sysscen[0]["name"], "config": sysscen[0]["desc"], "events": sysscen[0]["events"][:10]})
+    ctx.validate("DrfSystemTrace", "DrfSystemTrace.cfg", sysscen, label="live recording with ringbuffer and reader")
